@@ -11,14 +11,22 @@ import (
 )
 
 type vfCaseC09 struct {
-	Alloc bool
-	Reqs  []vfReq
+	Alloc   bool
+	Reqs    []vfReq
+	Extra   bool   `json:",omitempty"` // further options that do nothing observable here (seed C09-d)
+	OptPerm uint32 `json:",omitempty"` // order in which the options are given
+	MaxTx   uint32 `json:",omitempty"`
 }
 
 var vfC09Modifying = map[string]bool{"WRITE": true, "SETSTAT": true, "FSETSTAT": true, "REMOVE": true, "MKDIR": true, "RMDIR": true, "RENAME": true, "SYMLINK": true, "POSIXRENAME": true, "HARDLINK": true}
 
 func vfGenC09(t *rapid.T) vfCaseC09 {
 	c := vfCaseC09{Alloc: rapid.Bool().Draw(t, "alloc")}
+	c.Extra = rapid.Bool().Draw(t, "extraopts")
+	if rapid.Bool().Draw(t, "shuffleopts") {
+		c.OptPerm = rapid.Uint32Range(1, 1<<20).Draw(t, "optperm")
+	}
+	c.MaxTx = rapid.SampledFrom([]uint32{0, 0, 65536}).Draw(t, "maxtx")
 	// first obtain handles, then try to modify through them and around them
 	c.Reqs = []vfReq{{T: "OPEN", P: 0, Pflags: 1}, {T: "OPENDIR", P: 1}}
 	n := rapid.IntRange(1, 15).Draw(t, "n")
@@ -59,11 +67,11 @@ func vfRunC09(ctx *vfCtx, c vfCaseC09) {
 	vfMkTree(rootB)
 	vfC18FixTimes(rootA)
 	vfC18FixTimes(rootB)
-	ro, err := vfStartSrv(vfSrvCfg{Kind: "os", Alloc: c.Alloc, ReadOnly: true}, rootA, nil)
+	ro, err := vfStartSrv(vfSrvCfg{Kind: "os", Alloc: c.Alloc, ReadOnly: true, Extra: c.Extra, OptPerm: c.OptPerm, MaxTx: c.MaxTx}, rootA, nil)
 	if err != nil {
 		ctx.Failf("harness/server", "%v", err)
 	}
-	rw, err := vfStartSrv(vfSrvCfg{Kind: "os", Alloc: c.Alloc}, rootB, nil)
+	rw, err := vfStartSrv(vfSrvCfg{Kind: "os", Alloc: c.Alloc, Extra: c.Extra, OptPerm: c.OptPerm, MaxTx: c.MaxTx}, rootB, nil)
 	if err != nil {
 		ctx.Failf("harness/server", "%v", err)
 	}
